@@ -778,6 +778,13 @@ def exceptionClassName : String := "异常"
 /-- lines displayed by 显示 -/
 def emit (line : String) : M ν Unit := modifyVM fun s => { s with out := line :: s.out }
 
+/-- eval.go `loopSignalToException`: 结束循环 / 继续循环 leaving a body becomes `value.NewException(sig.Error())` -/
+def loopSignalToException (e : Err) : M ν Err :=
+  match e with
+  | .sigBreak => do let a ← alloc (.exc "收到「结束」中断信号"); pure (Err.excErr a)
+  | .sigContinue => do let a ← alloc (.exc "收到「继续」中断信号"); pure (Err.excErr a)
+  | e => pure e
+
 def isDecl : Stmt → Bool
   | .classDecl .. | .funcDecl .. => true
   | _ => false
@@ -1118,7 +1125,14 @@ def evalExecBlock : Nat → Option ExecBlock → List Addr → M ν Addr
         match r with
         | .ok (some v) => pure v
         | .ok none => newNull
-        | .err e => handleException n blockModule blockDepth catches e
+        | .err e => do
+          -- a loop signal that no loop of this body consumed becomes an exception of this body …
+          let e ← loopSignalToException e
+          -- … and so does a loop signal raised by the handler block itself
+          tryCatch (handleException n blockModule blockDepth catches e) fun r =>
+            match r with
+            | .err e2 => do let e2 ← loopSignalToException e2; throwE e2
+            | r => liftRes r
         | .panic => goPanic
         | .fuel => outOfFuel
         | .unmodelled => notModelled
